@@ -718,3 +718,28 @@ M2('c01-generate-alias-tables-swapped', 'C01', 'R5', [
 ])
 # negative controls (exit 0): the undo written as `inserted = False; try: insert(..); inserted = True; finally: if not inserted: nodes.remove(new_node)`;
 # a src() template written with % and %r for the literal; `generate = self._generate_ast; generate(...)` with the tables in order
+
+# wave k3, third round of pre-emptive rewrites (refactoring + break)
+# finder slot assigned by one conditional expression + the lazy arm keeps the stale finder
+M2('c01-finder-slot-ifexp-keeps-stale', 'C01', 'R10', [
+    {'file': 'falcon/routing/compiled.py',
+     'old': "        if kwargs.get('compile', False):\n            self._find = self._compile()\n        else:\n            self._find = self._compile_and_find\n",
+     'new': "        self._find = self._compile() if kwargs.get('compile', False) else self._find\n"},
+])
+# negative control (exit 0): self._find = self._compile() if kwargs.get('compile', False) else self._compile_and_find
+
+# wave k3, coordinator cases (refactoring + break)
+# an extra defaulted parameter of the lazy stub + placed in the middle: the finder arguments shift by one
+M2('c01-lazy-stub-extra-parameter-in-the-middle', 'C01', 'R5', [
+    {'file': 'falcon/routing/compiled.py',
+     'old': '        _return_values: Any,\n        _patterns: Any,\n        _converters: Any,\n        params: Any,\n    ) -> Any:',
+     'new': '        _return_values: Any,\n        _unused: Any = None,\n        _patterns: Any = None,\n        _converters: Any = None,\n        params: Any = None,\n    ) -> Any:'},
+])
+# table = self._<...> local alias in the generator + the index is the length of another table
+M2('c01-table-alias-index-of-other-table', 'C01', 'R5', [
+    {'file': 'falcon/routing/compiled.py',
+     'old': '                        converter_idx = len(self._converters)\n                        self._converters.append(converter_obj)\n                        if converters._consumes',
+     'new': '                        table = self._patterns\n                        converter_idx = len(table)\n                        self._converters.append(converter_obj)\n                        if converters._consumes'},
+])
+# negative controls (exit 0): `_unused: Any = None` appended LAST to _compile_and_find; `scope: MethodDict = dict()` in _compile; `params = dict()` /
+# `params = _new_params()` (module-level `return {}`) in find(); `table = self._converters; converter_idx = len(table); table.append(obj)`
